@@ -380,6 +380,17 @@ def has_left_call(e):
     return False
 
 
+def has_call_first_actual(e):
+    """a procedure-call statement of h whose first actual contains a call or get"""
+    if isinstance(e, tuple):
+        if e[0] == 'call' and e[1] == 'h' and e[2] and (has_call(e[2][0]) or has_get(e[2][0])):
+            return True
+        return any(has_call_first_actual(x) for x in e[1:])
+    if isinstance(e, list):
+        return any(has_call_first_actual(x) for x in e)
+    return False
+
+
 def has_get(e):
     """a get system call somewhere in e"""
     if isinstance(e, tuple):
@@ -506,7 +517,7 @@ def frag_lcall(rng, depth, want='int'):
     e = rng.choice([('call', 'k', [frag_expr(rng, rng.randint(0, 1)), frag_expr(rng, rng.randint(0, 1))]), ('call', 'k0', []),
                     ('call', 'ka', [frag_expr(rng, rng.randint(0, 1)), ('var', rng.choice(FRAG_ARRS)[0])]),
                     ('call', 'get', [('num', 0)]), ('sys', 2, [('num', 0)])])
-    for _ in range(rng.randint(1, max(1, depth))):
+    for _ in range(rng.randint(1, max(1, depth)) if depth > 0 else 0):
         if rng.random() < 0.55:
             e = ('bin', rng.choice(['+', '-']), e, simple())
         else:
@@ -536,6 +547,10 @@ def frag_stmt(rng, depth):
             return ('call', 'put', e) if rng.random() < 0.5 else ('sys', 1, e)
         if r < 0.78:
             # a procedure call with call-free actuals (an array in scope as the actual of an array formal)
+            if rng.random() < 0.25:
+                # the first actual has a call on its left spine, the others are simple
+                return ('call', 'h', [frag_lcall(rng, rng.randint(0, 2)) if rng.random() < 0.8 else ('call', 'k0', []),
+                                      rng.choice([('var', rng.choice(FRAG_VARS)), ('num', rng.choice(CONST_CHOICES))])])
             return rng.choice([('call', 'h', [frag_expr(rng, rng.randint(0, 2)), frag_expr(rng, rng.randint(0, 2), rng.choice(['int', 'bool']))]),
                                ('call', 'h0', []),
                                ('call', 'ha', [('var', rng.choice(FRAG_ARRS)[0]), frag_expr(rng, rng.randint(0, 2))])])
@@ -578,7 +593,7 @@ def fragment_tie(ck, tools, scr, n):
     rng = ck.rng
     d = tempfile.mkdtemp(dir=scr)
     agree = outside = 0
-    narrf = narra = nget = nleft = 0
+    narrf = narra = nget = nleft = nfirst = 0
     sample = None
     for i in range(n):
         kind = rng.choice(['func', 'proc'])
@@ -657,10 +672,11 @@ def fragment_tie(ck, tools, scr, n):
             narra += has_array_actual(body)
             nget += has_get(body)
             nleft += has_left_call(body)
+            nfirst += has_call_first_actual(body)
             if sample is None or len(src) < len(sample['x_source']):
                 sample = {'x_source': src.decode('latin-1'), 'model_and_xcmp': mo}
     ck.cov['fragment_model_tie'] = {'procedures': n, 'in_fragment_identical_code': agree, 'outside_fragment': outside,
-                                    'identical_with_array_formals': narrf, 'identical_with_array_actuals': narra, 'identical_with_get': nget, 'identical_with_call_or_get_as_left_operand': nleft}
+                                    'identical_with_array_formals': narrf, 'identical_with_array_actuals': narra, 'identical_with_get': nget, 'identical_with_call_or_get_as_left_operand': nleft, 'identical_with_call_in_first_actual': nfirst}
     if sample:
         ck.sample(sample)
     shutil.rmtree(d, ignore_errors=True)
@@ -709,7 +725,7 @@ def program_tie(ck, tools, scr, n):
              'validated_image_ok': 0, 'validated_image_none': 0, 'isa_runs_compared': 0, 'lowered_and_optimised_image_show_the_same': 0,
              'byte_identical_with_array_formals': 0, 'byte_identical_with_array_actuals': 0,
              'well_defined': 0, 'well_defined_lowered_image_shows_the_spec': 0, 'ill_defined': 0, 'ill_defined_images_differ': 0,
-             'programs_reading_input': 0, 'well_defined_consuming_input': 0, 'byte_identical_with_call_or_get_as_left_operand': 0}
+             'programs_reading_input': 0, 'well_defined_consuming_input': 0, 'byte_identical_with_call_or_get_as_left_operand': 0, 'byte_identical_with_call_in_first_actual': 0}
     reasons = {}
     for i in range(n):
         kind = rng.choice(['func', 'proc', 'proc'])
@@ -773,6 +789,7 @@ def program_tie(ck, tools, scr, n):
             stats['byte_identical_with_array_formals'] += any(f[0] == 'array' for f in forms)
             stats['byte_identical_with_array_actuals'] += has_array_actual(body)
             stats['byte_identical_with_call_or_get_as_left_operand'] += has_left_call(body)
+            stats['byte_identical_with_call_in_first_actual'] += has_call_first_actual(body)
         else:
             stats['differing'] += 1
             why = 'length %d vs %d' % (len(model), len(real)) if len(model) != len(real) else 'same length, words differ'
@@ -947,7 +964,7 @@ def main():
                       'and of array formals with constant or computed index) and statements (skip stop return if while sequence assignment, assignment to an array element a[e1] := e2, exit put, '
                       'and get: console input, 255 at the end of the input; the input consumed is part of the proved behaviour; function calls and get may be the whole right-hand side of an assignment, '
                       'the whole value of a return or the whole condition of an if / while, or stand at the bottom of the LEFT spine of such an expression under + - = < ~ with simple right operands '
-                      '(literals, variables): xcmp computes the left operand first, as XSem does) '
+                      '(literals, variables): xcmp computes the left operand first, as XSem does; such an expression may also be the FIRST actual of a procedure-call statement whose other actuals are simple) '
                       'of the form the code generator reads (after XConstProp.front), '
                       'the code of the model cg/cs run on Isa.run shows the behaviour XSem gives (C01_expr_fragment_partial, C01_stmt_fragment_partial); '
                       'and for procedure-call statements, and function calls as the whole right-hand side of an assignment or the whole value of a return, '
@@ -968,7 +985,7 @@ def main():
                       'the three peephole rules are proved to preserve the effect of the block they rewrite (C01_peephole_rule1/2/3_partial) and to be all the pass applies (C01_peephole_rewrites); '
                       'global arrays are laid out by model_compile as xcmp does (cells at the top of memory, the name\'s data word holds their address) and, like array formals, are part of '
                       'the end-to-end theorem (the demo passes a global array to a recursive procedure through an array formal); '
-                      'NOT proved: calls (and get) in a right operand, under and / or / unary minus, in subscripts and as actuals, proc/func formals, string literals as array actuals, local arrays (XSem rejects them), shadowing of globals, strings, input from file streams (Unsupported in XSem), '
+                      'NOT proved: calls (and get) in a right operand, under and / or / unary minus, in subscripts, as actuals other than the first actual of a procedure-call statement, proc/func formals, string literals as array actuals, local arrays (XSem rejects them), shadowing of globals, strings, input from file streams (Unsupported in XSem), '
                       'source programs outside front_swap_safe (> / <= with two non-constant operands one of which contains a call, constant subexpressions topped by ~= >= > <=, unary minus of a non-constant '
                       'operand, the call 4294967295(..)), and that the peephole pass preserves behaviour for whole images (the proved image is the lowered one) '
                       '-- decided per program by this check']
